@@ -35,13 +35,19 @@ def opt_cps(s):
     return '_' if s is None else cps(s)
 
 
-def pct(s, rng=None):
+SUB_DELIMS = "!$&'()*+,;="          # RFC 3986: may appear unescaped in userinfo and path segments
+
+
+def pct(s, rng=None, raw=''):
     """own percent-encoder.  rng=None: canonical (unreserved raw, everything else %XX upper-case);
-    with rng: unreserved characters are sometimes escaped too and hex digits vary in case."""
+    with rng: unreserved characters are sometimes escaped too, hex digits vary in case, and the
+    characters in `raw` (legal unescaped in that component) are sometimes left as they are."""
     out = []
     for b in s.encode('utf-8'):
         ch = chr(b)
         if ch in UNRESERVED and (rng is None or rng.random() < 0.85):
+            out.append(ch)
+        elif rng is not None and ch in raw and rng.random() < 0.5:
             out.append(ch)
         else:
             h = '%02X' % b
@@ -123,16 +129,16 @@ def render(c, rng=None, extra_opts=()):
     """own renderer; rng=None gives the canonical text (the one Lean `render` must produce)"""
     out = 'amqps://' if c['tls'] else 'amqp://'
     if c['user'] is not None or c['pass'] is not None:
-        out += pct(c['user'] or '', rng)
+        out += pct(c['user'] or '', rng, SUB_DELIMS)
         if c['pass'] is not None:
-            out += ':' + pct(c['pass'], rng)
+            out += ':' + pct(c['pass'], rng, SUB_DELIMS + ':')
         out += '@'
     if c['host'] is not None:
         out += '[%s]' % c['host'] if c['hk'] == '6' else c['host']
     if c['port'] is not None:
         out += ':%d' % c['port']
     if c['vhost'] is not None:
-        out += '/' + pct(c['vhost'], rng)
+        out += '/' + pct(c['vhost'], rng, SUB_DELIMS + ':@')
     fields = [('heartbeat' if k == 'h' else 'timeout') + '=%d' % v for k, v in c['opts']]
     if extra_opts:
         fields = list(fields)
@@ -284,7 +290,7 @@ def check(rep):
     rng = random.Random(common.seed() * 611953 + 18)
     thorough = rep.tier == 'thorough'
     rep.rule = ('URIs rendered from components: credentials/vhost = random Unicode text (unreserved, every reserved character, '
-                'controls, 2/3/4-byte code points) percent-encoded by an own encoder (canonical and over-escaped/mixed-case variants); '
+                'controls, 2/3/4-byte code points) percent-encoded by an own encoder (canonical; and variants: over-escaped, mixed-case hex, RFC 3986 sub-delims left raw in userinfo and vhost, colon raw in the password, colon and at-sign raw in the vhost); '
                 'host = name / IPv4 / bracketed IPv6 / omitted; port omitted or 1..65535 with boundaries; heartbeat/timeout options '
                 '(0-3, any order, duplicates) + unknown options; both schemes; the full lattice of 2^6 omission subsets x 2 schemes '
                 'is always enumerated.  Plus a malformed stream (16 mutation kinds) for correspondence only.  distinct = distinct URI; '
